@@ -1,6 +1,6 @@
 (* C08 - Leveraged-LP pool totals equal the sum of open positions. Statements only. *)
 From Coq Require Import ZArith List Bool Arith.
-From Elys Require Import Base.Res Base.Fn Models.SumLedger Proofs.SumLedgerProofs Models.LevLedger Proofs.LevLedgerProofs.
+From Elys Require Import Base.Res Base.Fn Models.SumLedger Proofs.SumLedgerProofs Models.LevLedger Proofs.LevLedgerProofs Proofs.LevLedgerFrame.
 From Elys Require Import Models.LevLedgerMulti Proofs.LevLedgerMultiProofs.
 Import ListNotations.
 Open Scope Z_scope.
@@ -23,6 +23,37 @@ Print Assumptions C08_totals.
 Theorem C08_invariant : forall h s, LInv s -> Forall (fun o => 0 < pos_amt o) h -> LInv (lrun s h).
 Proof. exact lrun_inv. Qed.
 Print Assumptions C08_invariant.
+
+(* One item, exactly: the pool total and the shares committed at the acting position's address move by exactly the signed
+   amount; NO other position's amount or committed shares move. *)
+Theorem C08_step_exact_and_frame : forall s o s', lstep s o = Ok s' ->
+  total (l_sl s') = total (l_sl s) + pos_delta o /\
+  l_comm s' (pos_key o) = l_comm s (pos_key o) + pos_delta o /\
+  (forall k, k <> pos_key o -> parts (l_sl s') k = parts (l_sl s) k /\ l_comm s' k = l_comm s k).
+Proof. exact lstep_exact. Qed.
+Print Assumptions C08_step_exact_and_frame.
+
+(* Over EVERY history: a position no item names keeps its amount and its committed shares (nobody's close or liquidation
+   takes shares of another position). *)
+Theorem C08_other_positions_untouched : forall h s k, (forall o, In o h -> pos_key o <> k) ->
+  parts (l_sl (lrun s h)) k = parts (l_sl s) k /\ l_comm (lrun s h) k = l_comm s k.
+Proof. exact lrun_other_positions. Qed.
+Print Assumptions C08_other_positions_untouched.
+
+(* A close above what is committed at the position's address is refused and changes nothing. *)
+Theorem C08_close_beyond_committed_no_effect : forall s k a, l_comm s k < a ->
+  lstep s (LClose k a) = Err E_negative /\ lexec s (LClose k a) = s.
+Proof. intros s k a H. split; [exact (lclose_beyond_committed_refused s k a H) | exact (lclose_beyond_committed_no_effect s k a H)]. Qed.
+Print Assumptions C08_close_beyond_committed_no_effect.
+
+(* A close of exactly the position's amount (full close, liquidation, stop-loss) on a consistent state removes the
+   position: no longer stored, nothing left committed at its address, counter down by exactly one, total down by its amount. *)
+Theorem C08_full_close_removes_position : forall s k, LInv s -> In k (keys (l_sl s)) ->
+  let s' := lexec s (LClose k (parts (l_sl s) k)) in
+  ~ In k (keys (l_sl s')) /\ l_comm s' k = 0 /\ count (l_sl s') = count (l_sl s) - 1 /\
+  total (l_sl s') = total (l_sl s) - parts (l_sl s) k.
+Proof. exact full_close_removes. Qed.
+Print Assumptions C08_full_close_removes_position.
 
 (* The pinned commit: a liquidation failing after the pool exit, swallowed without a cache context,
    leaves a stored position whose amount differs from what is committed at its address. *)
